@@ -34,6 +34,8 @@ structure OracleLaws (O : Oracle) : Prop where
   time : ∀ s n, tsRepr s n = true → O.parseTime (O.fmtTime s n) = some (s, n)
   /-- `decimal.String()` is a fixpoint of `NewFromString(..).String()` -/
   dec : ∀ s norm, O.parseDec s = some norm → O.parseDec norm = some norm
+  /-- the formatted timestamp is valid UTF-8 (it is ASCII) -/
+  timeUtf8 : ∀ s n, tsRepr s n = true → isValidUtf8 (O.fmtTime s n) = true
 
 /-- shape of the formatted texts (needed only by the wire-format theorems of C08) -/
 structure OracleWire (O : Oracle) : Prop where
@@ -55,15 +57,9 @@ def scalarRepr (O : Oracle) (k : ScalarKind) (v : PVal) : Bool :=
   | .bytes, .bytes _ => true
   | .timestamp, .ts s n => tsRepr s n
   | .date, .date y m d =>
-    decide (1 ≤ y) && decide (y ≤ 9999) && decide (1 ≤ m) && decide (m ≤ 12) && decide (1 ≤ d) && decide (d ≤ 31)
+    decide (1 ≤ y ∧ y ≤ 9999 ∧ 1 ≤ m ∧ m ≤ 12 ∧ 1 ≤ d ∧ d ≤ daysInMonth y m)
   | .decimal, .dec s => (O.parseDec s).isSome
   | _, _ => false
-
-/-- the recorded defect class of C01/C08: `DateString` pads the year with spaces (`%4d`) -/
-def narrowYear (v : PVal) : Bool :=
-  match v with
-  | .date y _ _ => decide (y < 1000)
-  | _ => false
 
 /-- how the JSON reader hands back what `encodeScalar` wrote: a string, a number, or a bool -/
 def scalarTok : ScalarOut → GoTok
